@@ -89,7 +89,7 @@ Proof. unfold int_tail_elems. rewrite !enc_elems_app. rewrite <- app_elems, ST44
 
 (* ---------------------------------------------------------------- the signature step (one-octet length patch; estimate < 253) *)
 Lemma set_last_app (Y : bytes) e x : set_last (Y ++ [e]) x = Ok (Y ++ [x]).
-Proof. unfold set_last. rewrite rev_app_distr. cbn [rev app]. rewrite rev_involutive. reflexivity. Qed.
+Proof. unfold set_last. rewrite removelast_last. destruct (Y ++ [e]) eqn:E; [destruct Y; discriminate|reflexivity]. Qed.
 
 Lemma patch_sig_shape (P : list bytes) (X sv : bytes) est : est <= 252 -> blen sv <= est ->
   patch_sig (P ++ [X ++ tl_enc 46 ++ tl_enc est; []]) (S (length P)) sv = Ok (P ++ [X ++ tl_enc 46 ++ tl_enc (blen sv); sv]).
